@@ -185,6 +185,22 @@ def run(prog, tier):
             why = f"sigma = diag({a}), inv_sigma = diag({b})"
     except (KeyError, Unsupported) as e:
         why = str(e)
+    # the forward model and the data the algebra treats as atoms ARE the caller's: self.A / self.y are bound to the arguments (converted
+    # to arrays at most), not to a thresholded, whitened or rescaled copy
+    for attr_, par_ in (("A", "model_matrix"), ("y", "y")):
+        for st_ in ast.walk(init):
+            if isinstance(st_, ast.Assign) and len(st_.targets) == 1 and U(st_.targets[0]) == f"self.{attr_}":
+                e_ = st_.value
+                while True:
+                    if isinstance(e_, ast.Call) and isinstance(e_.func, ast.Attribute) and e_.func.attr in ("squeeze", "copy", "flatten", "ravel") and not e_.args:
+                        e_ = e_.func.value
+                    elif isinstance(e_, ast.Call) and U(e_.func) in ("array", "asarray", "atleast_1d", "atleast_2d", "asanyarray") and len(e_.args) == 1:
+                        e_ = e_.args[0]
+                    else:
+                        break
+                if not (isinstance(e_, ast.Name) and e_.id == par_):
+                    ok = False
+                    why += f"; line {st_.lineno}: `{U(st_)[:80]}` stores something else than the argument `{par_}`"
     # ... of the y_err the caller passed: the constructor re-binds its data arguments only to array conversions of themselves
     for var in ("y_err", "y", "y_cov", "model_matrix"):
         for st_ in ast.walk(init):
